@@ -17,6 +17,7 @@ RULE = ("0-20 records (incl. empty and all-phantom lists), 1-4 contests (also no
         "non-trivial = style information used and at least two contests with different positive shortfalls, or a "
         "no-style call that creates phantoms; distinct = distinct canonical input")
 EXHAUSTIVE = {"quick": False, "thorough": False}
+RULE += "; option stream (n/15 more cases, own generator, OPTIONS_AUDIT.md): make_phantoms(audit, contests, cvrs) with prefix / tally_pool / pool left out where they hold their defaults"
 
 CIDS = ["A", "B", "C", "D"]
 
